@@ -23,7 +23,8 @@ META = {
         'in the filter modules, exec only in the wrapper, Grid.filter stores nothing through self; (D5) the value constructors a filter literal reaches (datatypes __new__/__init__, pintutil.to_pint/to_haystack) call nothing on program-wide objects (unit registry, module tables).  Also (D3): the filter text is handed unchanged from Grid.filter to the grammar (shared with C11.D8), so invalid tokens reach the grammar and are refused.  Not decided: '
         'absence of effects as an observation of executions.'
         ' Also (D4): calls into modules that hold interpreter-wide settings (warnings, locale, signal, gc, ...) on the filter path.  (D2) every return of an if/return __repr__ is analysed.'
-        ' Also (D3): generated fragments are never a %-format template.  (D5) no codec / module is looked up by a name taken from a literal.  pyparsing_common elements are modelled by their regular expressions.'),
+        ' Also (D3): generated fragments are never a %-format template.  (D5) no codec / module is looked up by a name taken from a literal.  pyparsing_common elements are modelled by their regular expressions.'
+        ' Also (D4): no attribute / global is resolved under a run-time name on the filter path.  (D1) reference-name token within the Haystack reference alphabet.'),
     'rule_text': 'obligations = fragments reaching exec (per append/extend site), literal classes x repr conversions, '
                  'shape facts, ambient-effect call scan',
     'trusted_base': ['repr() of str/float/int/bool/None/bytes/list/dict/date/time/datetime re-reads as a literal of '
@@ -51,6 +52,8 @@ def run(ctx):
     _closedness(ctx, m, g)
     _shape(ctx, m)
     _ambient(ctx, m)
+    _dynamic_names(ctx, m)
+    _ref_token(ctx, g)
     _constructors(ctx, m)
     # invalid tokens must reach the grammar to be refused: the text is not rewritten on the way (shared with C11.D8)
     from . import c11
@@ -631,6 +634,100 @@ def _inside_function(n):
             return True
         p = getattr(p, '_parent', None)
     return False
+
+
+def _ref_token(ctx, g, rule='C12.D1', F=F, where_='filter'):
+    """(D1) the name part of a reference literal stays inside the Haystack reference alphabet (letters, digits,
+    _ : - . ~): a class written `[A-z...]` also admits [ \\ ] ^ and the backtick, so `x == @a\\b` or `@a`b` is parsed and
+    compiled instead of being refused."""
+    from .. import spec as S_
+    try:
+        ref = g.get('hs_ref')
+    except AnalysisError as e:
+        ctx.error(rule, str(e))
+        return
+    kids = [c for c in ref.children] if ref.kind == 'And' else []
+    # the element after the `@`
+    name_el = None
+    for i, c in enumerate(kids):
+        if c.kind in ('Literal', 'Suppress') and i + 1 < len(kids):
+            name_el = kids[i + 1]
+            break
+    if name_el is None:
+        ctx.error(rule, 'hs_ref: name element not found')
+        return
+    try:
+        rx = G.ToRx().rx(name_el)
+        # (pyparsing skips white space in front of a token: that is not part of the name)
+        alphabet = L.rcat(L.rstar(L.rset(G.WS)), L.rstar(L.rset(_alphabet_of(S_.domain('ref_name')))))
+        w = L.find_not_included(rx, alphabet, max_witnesses=1)
+    except Unsupported as e:
+        ctx.error(rule, 'hs_ref name: %s' % e)
+        return
+    where = '%s:%s' % (F, name_el.lineno)
+    if w:
+        text = ''.join(chr(c) for c in w[0])
+        ctx.violation(rule, '%s::hs_ref' % F, name_el.label() or 'reference name',
+                      '%s: `x == @%s` / the scalar `@%s` is accepted although %r is not a reference: the name token admits a '
+                      'character outside ASCII letters, ASCII digits and _ : - . ~ (a range such as A-z spans [ \\ ] ^ _ and the '
+                      'backtick; \\d also matches non-ASCII decimal digits)'
+                      % ('the filter grammar' if where_ == 'filter' else 'the ZINC grammar', text, text, '@' + text),
+                      'the reference-name token accepts characters outside the Haystack reference alphabet',
+                      file=F, line=name_el.lineno, engine='E3')
+    else:
+        ctx.ob(rule, 'reference names (%s grammar) stay inside the Haystack reference alphabet' % where_, True, where)
+
+
+def _alphabet_of(rx):
+    k = rx[0]
+    if k == 'set':
+        return rx[1]
+    if k in ('cat', 'alt'):
+        out = ()
+        for x in rx[1]:
+            out = L.iv_union(out, _alphabet_of(x))
+        return out
+    if k == 'star':
+        return _alphabet_of(rx[1])
+    return ()
+
+
+def _dynamic_names(ctx, m):
+    """(D4) nothing on the filter path looks an attribute / global up under a NAME COMPUTED AT RUN TIME
+    (`getattr(module, <token>)`, `globals()[<token>]`, `vars(x)[...]`, `x.__dict__[...]`): the type name of a literal
+    would select which library callable runs.  The generated-function namespace (`globals()[self.fun_name]` inside
+    _FnWrapper, names made from the counter) is the one tabled exception."""
+    n = 0
+    for modname in (MOD, 'filter_ast'):
+        mod = m.mod(modname)
+        fpath = 'hszinc/%s.py' % modname
+        for node in ast.walk(mod.tree):
+            hit = None
+            if isinstance(node, ast.Call) and norm(node.func) in ('getattr', 'setattr', 'delattr', 'hasattr') and len(node.args) >= 2 \
+                    and not isinstance(node.args[1], ast.Constant):
+                hit = node
+            elif isinstance(node, ast.Subscript) and not isinstance(node.slice, ast.Constant) and (
+                    (isinstance(node.value, ast.Call) and norm(node.value.func) in ('globals', 'vars', 'locals'))
+                    or (isinstance(node.value, ast.Attribute) and node.value.attr == '__dict__')):
+                owner = node
+                while owner is not None and not isinstance(owner, ast.ClassDef):
+                    owner = getattr(owner, '_parent', None)
+                if owner is not None and owner.name == '_FnWrapper' and norm(node.slice) in ('self.fun_name', 'fun_name'):
+                    continue
+                hit = node
+            if hit is None:
+                continue
+            n += 1
+            ctx.violation('C12.D4', '%s::%s' % (fpath, norm(hit)[:40]), norm(hit),
+                          'filter  x == use_pint("1")  (an extended-string literal whose TYPE NAME is the name of a library '
+                          'callable): `%s` looks the name up at run time and the result is called with the literal\'s text -- '
+                          'the filter text chooses which code runs (here it flips the library into Pint mode for the whole '
+                          'process)' % norm(hit)[:60],
+                          'a name computed from the filter is resolved with `%s`' % norm(hit)[:60], file=fpath, line=hit.lineno,
+                          engine='E10')
+    if not n:
+        ctx.ob('C12.D4', 'no attribute / global is looked up under a run-time name on the filter path (the generated-function '
+                         'namespace of _FnWrapper aside)', True, F)
 
 
 def _ambient(ctx, m):
